@@ -451,8 +451,8 @@ def state_matrix(prop, oracles_for, want=None, R=3, B=16, kinds=('desync', 'sync
             orc = tuple(oracles_for(st, kb, P))
             if P == 0 and (heavy or st in ('wfp',)): orc = tuple(o for o in orc if o not in ('deadlock', 'quiescent_complete', 'fut_results'))
             if st == 'suspended': orc = tuple(o for o in orc if o != 'order') + ('suspend',)
-            # resuming needs one more hand-over (W opens the gate, A resumes, the pool thread runs the held work, B returns)
-            L.append(S('%s_smx_%s_%s%s' % (prop.lower(), st, kb, '_rw' if rewake else ''), ths + [T('B', *opsb), T('W', *ev)], pool_max=P, queues=nq, R=R + (1 if st == 'suspended' else 0), B=B + (4 if heavy else 0), setup=setup, oracles=orc, cap=(4 if kb == 'fsync' else 3)))
+            # resuming needs three rounds (W opens the gate, A resumes, the pool thread runs the held work, B returns); four did not finish in an hour
+            L.append(S('%s_smx_%s_%s%s' % (prop.lower(), st, kb, '_rw' if rewake else ''), ths + [T('B', *opsb), T('W', *ev)], pool_max=P, queues=nq, R=(3 if st == 'suspended' else R), B=B + (4 if heavy else 0), setup=setup, oracles=orc, cap=(4 if kb == 'fsync' else 3)))
     return L
 
 def rotate_orders(L, seed):
